@@ -106,7 +106,12 @@ class Ctx:
 
     def violation(self, case, expected, got, oracle, tags=None):
         """The implementation breaks the property's oracle on `case`."""
-        if len(self.violations) < 200:
+        # keep a bounded number per distinct tag set, so that many instances of one (possibly known)
+        # finding can never crowd out a different violation
+        key = canon(tags or {})
+        self._per_tag = getattr(self, "_per_tag", {})
+        self._per_tag[key] = self._per_tag.get(key, 0) + 1
+        if self._per_tag[key] <= 25 and len(self.violations) < 1000:
             self.violations.append(
                 dict(case=case, expected=expected, got=got, oracle=oracle, tags=tags or {})
             )
